@@ -758,6 +758,7 @@ func checkC01(c *Ctx) {
 	laPages(c, "LA-pages")
 	laNonNull(c, "LA-nonnull")
 	laSizes(c, "LA-sizes")
+	laFooterMeta(c, "LA-footer", map[string]bool{"rows": true, "seek": true})
 	r.assume("per-shape inversion of shredding by assembly is claimed under C05 (TV-asm/TV-shred), not here")
 }
 
